@@ -347,6 +347,37 @@ def expand_predicates(lits, facts, body=None):
     from .defuse import subst
     out = []
     for l in lits:
+        if l.kind == "variant" and l.variants and len(l.variants) == 1 and body is not None and not getattr(l, "derived", False):
+            # an enum value used as a flag: `let view = if gone { None } else { Some(x) }; match view { .. }` - the local tested here was
+            # given its variant by aggregates; the arm holds whatever dominated the one aggregate of that variant
+            t_ = l.term
+            hops = 0
+            while hops < 12 and t_[0] in ("cast", "ref", "deref") or (t_[0] == "phi" and len(t_[1]) == 1):
+                t_ = t_[1][0] if t_[0] == "phi" else t_[1]
+                hops += 1
+            hops = 0
+            while hops < 8 and t_[0] == "var" and len(t_) > 3 and t_[3][0] in ("var", "ref", "deref"):
+                t_ = t_[3] if t_[3][0] == "var" else (t_[3][1] if t_[3][1][0] == "var" else t_)
+                hops += 1
+                if t_[0] != "var":
+                    break
+            if t_[0] == "var":
+                du_ = du_of(body)
+                ds_ = du_.full_defs(t_[1])
+                want_ = next(iter(l.variants))
+                if ds_ and all(d.kind == "assign" and d.rv.kind == "agg" and d.rv.j.get("variant") is not None for d in ds_) and len(ds_) >= 2:
+                    hit = [d for d in ds_ if d.rv.j.get("variant") == want_]
+                    if len(hit) == 1 and hit[0].block != l.block:
+                        for pl in lits_of(body, hit[0].block, facts, _noexpand=True) if "_noexpand" in lits_of.__code__.co_varnames else lits_of(body, hit[0].block, facts):
+                            if pl.implied or getattr(pl, "derived", False):
+                                continue
+                            n = Lit(pl.kind, pl.term, pl.truth, pl.variants, l.block, pl.raw, pl.value, pl.adt)
+                            n.edge = l.edge
+                            n.implied = True
+                            n.derived = True
+                            n.parent = l
+                            n.inner_derived = False
+                            out.append(n)
         if l.kind == "variant" and l.variants == {"Some"}:
             # `opt.filter(|x| p(x))` is Some: p held for the payload
             sf = _strip_var(l.term)
